@@ -301,9 +301,6 @@ static void gen_program(Rng& rng, long pnum, long nprog, std::uint64_t seed) {
 		bool colmajor = rng.coin(50);
 		base += gen_matrix(rng, 1, base, n, n, colmajor, true) + 8;
 		long fail_k = rng.coin(30) ? rng.range(1, n) : 0;
-		// row-major + non-positive-definite is the class of an open finding (shape of the returned view): the orchestrator stops
-		// comparing a stream at its first disagreement, so that class is generated only in the last tenth of a stream
-		if(fail_k > 0 && !colmajor && pnum * 10 < nprog * 9) fail_k = 0;
 		line = "x potrf 1 " + std::string(rng.coin(50) ? "U" : "L") + " " + std::to_string(rng.next() % 1000000) + " " + std::to_string(fail_k);
 	} else if(c == 1) {
 		long p = rng.range(1, 8), q = rng.range(1, 8);
